@@ -84,6 +84,42 @@ func extraBase32(ctx *core.Ctx) (int, string, []core.ExtraFailure) {
 			}
 		}
 	}
+	// one byte outside the alphabet at EVERY position of inputs of EVERY length 1..48, for a
+	// set of invalid bytes, and all 256 values at the first, the 14th-from-last and the last
+	// position of a 20-character input
+	longBad := 0
+	alpha := []byte(refAlphabet)
+	for n := 1; n <= 48; n++ {
+		base := make([]byte, n)
+		for j := range base {
+			base[j] = alpha[(j*7+n)%32]
+		}
+		for p := 0; p < n; p++ {
+			for _, bad := range []byte{0x00, 0xff, 'i', 'l', 'o', 'q', 'A', '!', 0x80} {
+				in := append([]byte{}, base...)
+				in[p] = bad
+				id, err := randz.ParseBase32(in)
+				evals++
+				if !errors.Is(err, randz.ErrInvalidBase32) {
+					longBad++
+					report("base32-accepts-invalid", fmt.Sprintf("ParseBase32(%q) = (%d, %v): byte %#x at position %d of %d is outside the alphabet, ErrInvalidBase32 expected", in, id, err, bad, p, n), in)
+				}
+			}
+		}
+	}
+	for _, p := range []int{0, 6, 7, 19} {
+		base := []byte("0123456789abcdefghjk")
+		for v := 0; v < 256; v++ {
+			in := append([]byte{}, base...)
+			in[p] = byte(v)
+			id, err := randz.ParseBase32(in)
+			evals++
+			if (dec[v] < 0) != errors.Is(err, randz.ErrInvalidBase32) {
+				longBad++
+				report("base32-accepts-invalid", fmt.Sprintf("ParseBase32(%q) = (%d, %v): byte %#x at position %d of 20", in, id, err, v, p), in)
+			}
+		}
+	}
 	rt := 0
 	checkRT := func(v int64) {
 		evals++
@@ -116,7 +152,7 @@ func extraBase32(ctx *core.Ctx) (int, string, []core.ExtraFailure) {
 	for i := 0; i < n*ctx.Escalate; i++ {
 		checkRT(int64(ctx.Rand.Uint64() >> uint(1+ctx.Rand.Intn(40))))
 	}
-	note := fmt.Sprintf("all %d byte strings of length 1..3: %d wrongly accepted, %d wrongly rejected, %d wrong values; %d round trips", 256+65536+16777216, wrongAccept, wrongReject, wrongValue, rt)
+	note := fmt.Sprintf("all %d byte strings of length 1..3: %d wrongly accepted, %d wrongly rejected, %d wrong values; one invalid byte at every position of every length 1..48 (9 byte values) and 256-value sweeps at 4 positions of a 20-character input: %d wrong; %d round trips", 256+65536+16777216, wrongAccept, wrongReject, wrongValue, longBad, rt)
 	return evals, note, fails
 }
 
@@ -281,6 +317,19 @@ func extraIdGen(ctx *core.Ctx) (int, string, []core.ExtraFailure) {
 			prev = cur
 		}
 	}
+	// less-used entry points: SetIdGeneratorStartTime + Id() (18 random bits), ID.Int64
+	func() {
+		defer randz.SetIdGeneratorStartTime(time.Date(2023, 2, 27, 0, 30, 0, 0, time.UTC))
+		start := time.Now().Add(-90 * time.Minute)
+		randz.SetIdGeneratorStartTime(start)
+		before := time.Since(start).Milliseconds()
+		id := randz.Id()
+		after := time.Since(start).Milliseconds()
+		evals++
+		if t := id.Int64() >> 18; id < 0 || t < before || t > after || id.Int64() != int64(id) {
+			fails = append(fails, core.ExtraFailure{Failure: core.Failure{Key: "id-layout", Desc: fmt.Sprintf("after SetIdGeneratorStartTime(now-90min): Id() = %d has time field %d, elapsed ms in [%d,%d]", id, t, before, after)}, Payload: map[string]any{"id": int64(id)}})
+		}
+	}()
 	d := randz.Id()
 	if d < 0 {
 		fails = append(fails, core.ExtraFailure{Failure: core.Failure{Key: "id-layout", Desc: fmt.Sprintf("randz.Id() = %d is negative", d)}, Payload: map[string]any{"id": int64(d)}})
@@ -325,5 +374,28 @@ func extraStrReal(ctx *core.Ctx) (int, string, []core.ExtraFailure) {
 			break
 		}
 	}
-	return evals, fmt.Sprintf("%d Generate calls over math/rand sources", evals), fails
+	// less-used entry points: SetStrGeneratorCharSet (default generator over a multi-byte
+	// set), LockRandSource.Seed (same seed ⇒ same string)
+	func() {
+		defer randz.SetStrGeneratorCharSet(randz.CHAR_SET)
+		set := "é你x\u00ff"
+		randz.SetStrGeneratorCharSet(set)
+		for n := 0; n <= 40; n++ {
+			s := randz.String(n)
+			evals++
+			if utf8.RuneCountInString(s) != n || strings.Trim(s, set) != "" {
+				fails = append(fails, core.ExtraFailure{Failure: core.Failure{Key: "strgen-length", Desc: fmt.Sprintf("after SetStrGeneratorCharSet(%q): randz.String(%d) = %q", set, n, s)}, Payload: map[string]any{"n": n, "out_hex": hx([]byte(s))}})
+				break
+			}
+		}
+	}()
+	a, b := randz.NewLockRandSource(1), randz.NewLockRandSource(2)
+	a.Seed(int64(ctx.Seed) + 7)
+	b.Seed(int64(ctx.Seed) + 7)
+	ga, gb := randz.NewStrGenerator("abcdefg", a), randz.NewStrGenerator("abcdefg", b)
+	if x, y := ga.Generate(50), gb.Generate(50); x != y || len(x) != 50 {
+		fails = append(fails, core.ExtraFailure{Failure: core.Failure{Key: "strgen-length", Desc: fmt.Sprintf("two LockRandSources seeded alike give %q and %q", x, y)}, Payload: map[string]any{"a": x, "b": y}})
+	}
+	evals += 2
+	return evals, fmt.Sprintf("%d Generate calls over math/rand sources (incl. SetStrGeneratorCharSet and LockRandSource.Seed)", evals), fails
 }
